@@ -19,6 +19,10 @@ def shape_form(shape, form):
         return {"input": np.array(shape, dtype=np.int64)}
     if form == "dict_out":
         return {"output": np.array(shape, dtype=np.int64)}
+    if form == "dict_tuple":
+        return {"input": tuple(shape)}
+    if form == "dict_list":
+        return {"input": list(shape)}
     if form.startswith("nd:"):
         return np.array(shape, dtype=np.dtype(form[3:]))
     raise ValueError(form)
